@@ -51,6 +51,8 @@ struct RecPersister {
 	snapshots: Mutex<Vec<(usize, u64, Vec<u8>)>>,
 	/// number of monitor writes this node has made so far
 	nwrites: Mutex<u64>,
+	/// do not log re-persists that carry no update (block connections while the chain is settled)
+	quiet: Mutex<bool>,
 	/// last counterparty-commitment / holder-commitment info seen per channel
 	last_cp: Mutex<HashMap<usize, Value>>,
 	pending: Mutex<Vec<(usize, u64)>>,
@@ -83,11 +85,29 @@ fn htlc_json(hashes: &Arc<Mutex<Vec<[u8; 32]>>>, h: &HtlcInfo) -> Value {
 }
 
 /// C12: write / read-back checks performed on every persisted monitor and update.
+struct NullBroadcaster;
+impl lightning::chain::chaininterface::BroadcasterInterface for NullBroadcaster {
+	fn broadcast_transactions(&self, _txs: &[(&bitcoin::Transaction, lightning::chain::chaininterface::TransactionType)]) {}
+}
+
 fn round_trips(p: &RecPersister, prev: Option<&Vec<u8>>, update: Option<&ChannelMonitorUpdate>, mon: &ChannelMonitor<TestChannelSigner>) -> Value {
 	let bytes = mon.encode();
 	let mut rd = &bytes[..];
 	let mon_rt = match <(BlockLocator, ChannelMonitor<TestChannelSigner>)>::read(&mut rd, (p.keys, p.keys)) {
-		Ok((_, m2)) => rd.is_empty() && m2 == *mon,
+		// equal under the library's ==, or -- that relation also looks at in-memory-only state such as the
+		// "events are being processed" flag, which a write in the middle of event handling cannot carry --
+		// re-encoding to the very same bytes
+		Ok((_, m2)) => {
+			// (fields the library documents as in-memory only -- "Not serialized" -- are part of its derived ==;
+			// they are listed by the read-only hook verif_diff_fields and not held against the round trip)
+			let inmem = ["failed_back_htlc_ids", "is_processing_pending_events"];
+			let ok = rd.is_empty() && (m2 == *mon || m2.encode() == bytes || mon.verif_diff_fields(&m2).iter().all(|f| inmem.contains(f)));
+			if !ok && std::env::var("VERIF_DBG").is_ok() {
+				let _ = std::fs::write("/tmp/mon_a.bin", &bytes); let _ = std::fs::write("/tmp/mon_b.bin", m2.encode());
+				eprintln!("DBGMON eq={} bytes_eq={} rd_empty={} diff={:?}", m2 == *mon, m2.encode() == bytes, rd.is_empty(), mon.verif_diff_fields(&m2));
+			}
+			ok
+		},
 		Err(_) => false,
 	};
 	let mut upd_rt = true;
@@ -107,7 +127,8 @@ fn round_trips(p: &RecPersister, prev: Option<&Vec<u8>>, update: Option<&Channel
 			let rd = |b: &[u8]| { let mut r = b; <(BlockLocator, ChannelMonitor<TestChannelSigner>)>::read(&mut r, (p.keys, p.keys)).map(|x| x.1) };
 			if let (Ok(m1), Ok(m2)) = (rd(&pb[..]), rd(&pb[..])) {
 				if m1.get_latest_update_id() + 1 == u.update_id {
-					let bc = TestBroadcaster::new(bitcoin::Network::Testnet);
+					// (a broadcaster without TestBroadcaster's chain-tip assertions: the copy is driven outside any chain)
+					let bc = NullBroadcaster;
 					let ok1 = m1.update_monitor(u, &bc, p.fee_est, p.logger).is_ok();
 					let m1b = rd(&m1.encode()[..]);
 					let m2b = rd(&m2.encode()[..]);
@@ -190,10 +211,12 @@ impl RecPersister {
 		if inprog {
 			self.pending.lock().unwrap().push((c, id));
 		}
+		if !(*self.quiet.lock().unwrap() && !has_update && !inprog && rt["monitor"] == json!(true) && rt["truncated_refused"] == json!(true)) {
 		self.log.lock().unwrap().push(json!({
 			"ev":"persist","node":self.node,"chan":c,"kind":kind,"id":id,
 			"uid": update.map(|u| u.update_id as i64).unwrap_or(-1),
 			"has_update":has_update,"steps":steps,"status":status,"rt":rt}));
+		}
 		if inprog {
 			ChannelMonitorUpdateStatus::InProgress
 		} else {
@@ -293,6 +316,14 @@ struct Net {
 	/// nodes whose user currently refuses payment events (handler returns ReplayEvent)
 	hold_events: Vec<bool>,
 	refused_logged: HashSet<(usize, String, usize)>,
+	/// a miner for the transactions the nodes broadcast (force-closes): unconfirmed transactions in
+	/// broadcast order with their declared type, spent outpoints, confirmed txids
+	/// while the chain is being settled block by block, routine records (manager snapshots, re-persists
+	/// that carry no update, empty blocks) are not logged
+	settling: bool,
+	mempool: Vec<(bitcoin::Transaction, String)>,
+	spent: HashSet<bitcoin::OutPoint>,
+	confirmed: HashSet<bitcoin::Txid>,
 	/// snapshot index remembered by a `save` script step (the manager the application wrote last)
 	saved_idx: Vec<Option<usize>>,
 	node_cfgs: &'static Vec<NodeCfg<'static>>,
@@ -356,6 +387,49 @@ impl Net {
 			Wire::Error(m) => json!({"kind":"error","chan":self.chan(&m.channel_id),"data":m.data}),
 			Wire::Warning(m) => json!({"kind":"warning","chan":self.chan(&m.channel_id),"data":m.data}),
 		}
+	}
+
+	/// Mine one block with every broadcast transaction that can confirm now (parents confirmed in an
+	/// earlier block -- an anchor bump may ride with its commitment --, inputs unspent, height locktime
+	/// reached) and hand it to every node.
+	fn mine_block(&mut self) {
+		let n = self.nodes.len();
+		let h0 = self.nodes[0].best_block_info().1;
+		if (1..n).any(|i| self.nodes[i].best_block_info().1 != h0) { self.ev(json!({"ev":"mine_skipped"})); return; }
+		let newh = h0 + 1;
+		if self.confirmed.is_empty() { for (t, _) in self.funding_txids.iter() { self.confirmed.insert(*t); } }
+		let mut txs: Vec<bitcoin::Transaction> = Vec::new();
+		let mut kinds: Vec<String> = Vec::new();
+		let mut in_block: HashSet<bitcoin::Txid> = HashSet::new();
+		let pool_ids: HashSet<bitcoin::Txid> = self.mempool.iter().map(|m| m.0.compute_txid()).collect();
+		let mut taken: Vec<usize> = Vec::new();
+		for (k, (tx, ty)) in self.mempool.iter().enumerate() {
+			let parents_ok = tx.input.iter().all(|i| {
+				let p = i.previous_output.txid;
+				if in_block.contains(&p) { ty == "AnchorBump" } else { !pool_ids.contains(&p) || self.confirmed.contains(&p) }
+			});
+			if !parents_ok { continue; }
+			if tx.input.iter().any(|i| self.spent.contains(&i.previous_output)) { continue; }
+			if tx.lock_time.is_block_height() && tx.lock_time.to_consensus_u32() >= newh { continue; }
+			for i in tx.input.iter() { self.spent.insert(i.previous_output); }
+			in_block.insert(tx.compute_txid());
+			txs.push(tx.clone());
+			kinds.push(ty.clone());
+			taken.push(k);
+		}
+		for t in in_block.iter() { self.confirmed.insert(*t); }
+		let spent = self.spent.clone();
+		let mut k = 0;
+		self.mempool.retain(|m| { let keep = !taken.contains(&k) && !m.0.input.iter().any(|i| spent.contains(&i.previous_output)); k += 1; keep });
+		if !kinds.is_empty() || !self.settling { self.ev(json!({"ev":"block","n":1,"h":newh,"mined":kinds})); }
+		for i in 0..n {
+			let block = create_dummy_block(self.nodes[i].best_block_hash(), newh, txs.clone());
+			connect_block(&self.nodes[i], &block);
+		}
+		if std::env::var("VERIF_DBG").is_ok() {
+			for i in 0..n { let a = self.nodes[i].best_block_info().1; let b = self.nodes[i].blocks.lock().unwrap().last().unwrap().1; let c = self.nodes[i].tx_broadcaster.blocks.lock().unwrap().last().unwrap().1; self.ev(json!({"ev":"dbg","node":i,"best":a,"blocks":b,"bc":c})); }
+		}
+		self.drain();
 	}
 
 	/// a channel stops being "dirty" once the node has handled the peer's channel_reestablish on it
@@ -474,6 +548,13 @@ impl Net {
 			for e in events {
 				self.log_event(i, e);
 			}
+			// events of the monitors (requests to fund an anchor / HTLC claim, spendable outputs)
+			{
+				use lightning::events::EventsProvider;
+				let got = std::cell::RefCell::new(Vec::new());
+				self.nodes[i].chain_monitor.chain_monitor.process_pending_events(&|e: Event| { got.borrow_mut().push(e); Ok(()) });
+				for e in got.into_inner() { self.log_event(i, e); }
+			}
 			let txs: Vec<_> = self.nodes[i].tx_broadcaster.txn_broadcasted.lock().unwrap().drain(..).collect();
 			let types: Vec<_> = self.nodes[i].tx_broadcaster.txn_types.lock().unwrap().drain(..).collect();
 			for (k, tx) in txs.iter().enumerate() {
@@ -483,6 +564,10 @@ impl Net {
 				let known = self.txids.lock().unwrap().get(&tx.compute_txid().to_byte_array()).cloned();
 				if self.extra_funding.iter().any(|f| f.compute_txid() == tx.compute_txid()) && !self.extra_broadcast.iter().any(|f| f.compute_txid() == tx.compute_txid()) {
 					self.extra_broadcast.push(tx.clone());
+				}
+				if ty != "Funding" {
+					let txid = tx.compute_txid();
+					if !self.confirmed.contains(&txid) && !self.mempool.iter().any(|m| m.0.compute_txid() == txid) { self.mempool.push((tx.clone(), ty.clone())); }
 				}
 				let mut out_values = tx.output.iter().map(|o| o.value.to_sat()).collect::<Vec<_>>();
 				out_values.sort();
@@ -495,7 +580,7 @@ impl Net {
 		}
 		// the application persists the manager whenever the library asks for it
 		for i in 0..self.nodes.len() {
-			if self.nodes[i].node.get_and_clear_needs_persistence() {
+			if self.nodes[i].node.get_and_clear_needs_persistence() && !self.settling {
 				self.mgr_snaps[i].push(self.nodes[i].node.encode());
 				self.settle_dirty(i);
 				let mut held: HashSet<usize> = self.persisters[i].pending.lock().unwrap().iter().map(|p| p.0).collect();
@@ -617,8 +702,11 @@ impl Net {
 			Event::SpendableOutputs { outputs, .. } => {
 				self.ev(json!({"ev":"event","node":i,"kind":"SpendableOutputs","n":outputs.len()}));
 			},
-			Event::BumpTransaction(_) => {
+			Event::BumpTransaction(b) => {
 				self.ev(json!({"ev":"event","node":i,"kind":"BumpTransaction"}));
+				// the application's wallet funds the anchor / HTLC claim the monitor asks for
+				let node = &self.nodes[i];
+				let _ = catch_unwind(AssertUnwindSafe(|| node.bump_tx_handler.handle_event(&b)));
 			},
 			other => {
 				let t: String = format!("{:?}", other).chars().take_while(|c| c.is_alphanumeric()).collect();
@@ -637,6 +725,13 @@ impl Net {
 			Some(w) => w,
 			None => return false,
 		};
+		// two nodes that have both given a channel up would answer each other's bogus channel_reestablish /
+		// error for it forever: the harness lets that exchange die
+		let dead = match &w { Wire::Reestablish(m) => Some(m.channel_id), Wire::Error(m) => Some(m.channel_id), _ => None };
+		if let Some(cid) = dead {
+			let has = |i: usize| self.nodes[i].node.list_channels().iter().any(|c| c.channel_id == cid);
+			if self.chans.lock().unwrap().contains(&cid) && !has(from) && !has(to) { return true; }
+		}
 		let mut d = self.describe(&w);
 		d["tampered"] = json!(tamper);
 		if tamper { if let Wire::RAA(ref mut m) = w { m.per_commitment_secret[7] ^= 0x10; } }
@@ -684,7 +779,8 @@ impl Net {
 				"out_cap":cd.outbound_capacity_msat,"in_cap":cd.inbound_capacity_msat,
 				"limit":cd.next_outbound_htlc_limit_msat,"min":cd.next_outbound_htlc_minimum_msat,
 				"usable":cd.is_usable,"ready":cd.is_channel_ready,
-				"n_in":cd.pending_inbound_htlcs.len(),"n_out":cd.pending_outbound_htlcs.len(),"final":fin,"after_reload":after_reload}));
+				"n_in":cd.pending_inbound_htlcs.len(),"n_out":cd.pending_outbound_htlcs.len(),"final":fin,"after_reload":after_reload,
+				"confs":cd.confirmations.unwrap_or(0),"confs_req":cd.confirmations_required.unwrap_or(0)}));
 		}
 	}
 
@@ -930,6 +1026,53 @@ impl Net {
 					self.drain();
 				} else { did = false; }
 			},
+			"force_close" => {
+				let a = op["a"].as_u64().unwrap() as usize;
+				let b = op["b"].as_u64().unwrap() as usize;
+				if a < n && b < n && self.chan_ids.contains_key(&(a.min(b), a.max(b))) {
+					let cid = self.chan_ids[&(a.min(b), a.max(b))];
+					let pb = self.nodes[b].node.get_our_node_id();
+					let c = self.chan(&cid);
+					if self.nodes[a].node.list_channels().iter().any(|x| x.channel_id == cid) {
+						// the record comes first: the monitor update and the broadcast follow from the call
+						self.ev(json!({"ev":"force_close","node":a,"chan":c}));
+						let _ = self.nodes[a].node.force_close_broadcasting_latest_txn(&cid, &pb, "closed by the user".to_string());
+						self.drain();
+					} else { did = false; }
+				} else { did = false; }
+			},
+			"mine" => {
+				let k = op["n"].as_u64().unwrap_or(1);
+				for _ in 0..k { self.mine_block(); }
+			},
+			"settle_chain" => {
+				// everything that was broadcast is mined at once, block after block, until every timelock
+				// of the run has expired; messages and monitor writes flow freely in between
+				for i in 0..n { *self.persisters[i].in_progress.lock().unwrap() = false; self.hold_events[i] = false; }
+				let edges = self.edges.clone();
+				for (a, b) in edges { self.step(&json!({"op":"reconnect","a":a,"b":b}), rng); }
+				self.ev(json!({"ev":"settle_chain"}));
+				self.settling = true;
+				for p in self.persisters.iter() { *p.quiet.lock().unwrap() = true; }
+				let rounds = op["blocks"].as_u64().unwrap_or(260);
+				for _ in 0..rounds {
+					self.mine_block();
+					for i in 0..n {
+						let pend = self.persisters[i].pending.lock().unwrap().clone();
+						for (c, id) in pend {
+							self.persisters[i].pending.lock().unwrap().retain(|x| *x != (c, id));
+							let cid = self.chans.lock().unwrap()[c - 1];
+							self.ev(json!({"ev":"complete","node":i,"chan":c,"id":id}));
+							let _ = self.nodes[i].chain_monitor.chain_monitor.channel_monitor_updated(cid, id);
+							self.drain();
+						}
+					}
+					self.step(&json!({"op":"deliver_all"}), rng);
+				}
+				self.settling = false;
+				for p in self.persisters.iter() { *p.quiet.lock().unwrap() = false; }
+				self.ev(json!({"ev":"settled"}));
+			},
 			"hold_events" => {
 				let i = op["node"].as_u64().unwrap() as usize;
 				let on = op["on"].as_bool().unwrap_or(true);
@@ -1026,20 +1169,47 @@ impl Net {
 		let mut r = &bytes[..];
 		let res = <ProbabilisticScorer<_, _> as ReadableArgs<_>>::read(&mut r, (ProbabilisticScoringDecayParameters::default(), graph, logger));
 		let (mut bytes_equal, mut answers_equal, mut read_ok) = (false, false, false);
-		if let Ok(s2) = res {
-			read_ok = r.is_empty();
-			bytes_equal = s2.encode() == bytes;
-			answers_equal = true;
-			for scid in self.scids.values() {
-				for nd in self.nodes.iter() {
-					let target = NodeId::from_pubkey(&nd.node.get_our_node_id());
-					if scorer.estimated_channel_liquidity_range(*scid, &target) != s2.estimated_channel_liquidity_range(*scid, &target) { answers_equal = false; }
+		let scids: Vec<u64> = self.scids.values().cloned().collect();
+		let targets: Vec<NodeId> = self.nodes.iter().map(|nd| NodeId::from_pubkey(&nd.node.get_our_node_id())).collect();
+		let same = |a: &ProbabilisticScorer<_, _>, b: &ProbabilisticScorer<_, _>| -> bool {
+			let mut eq = true;
+			for scid in scids.iter() {
+				for target in targets.iter() {
+					if a.estimated_channel_liquidity_range(*scid, target) != b.estimated_channel_liquidity_range(*scid, target) { eq = false; }
+					if a.historical_estimated_channel_liquidity_probabilities(*scid, target) != b.historical_estimated_channel_liquidity_probabilities(*scid, target) { eq = false; }
 					for amt in [1_000u64, 1_000_000, 100_000_000] {
-						if scorer.historical_estimated_payment_success_probability(*scid, &target, amt, &Default::default(), true)
-							!= s2.historical_estimated_payment_success_probability(*scid, &target, amt, &Default::default(), true) { answers_equal = false; }
+						if a.historical_estimated_payment_success_probability(*scid, target, amt, &Default::default(), true)
+							!= b.historical_estimated_payment_success_probability(*scid, target, amt, &Default::default(), true) { eq = false; }
 					}
 				}
 			}
+			eq
+		};
+		if let Ok(mut s2) = res {
+			read_ok = r.is_empty();
+			bytes_equal = s2.encode() == bytes;
+			answers_equal = same(&scorer, &s2);
+			// "reacting to all subsequent updates like the original": let time pass (decay), write again in
+			// the decayed state, let more time pass, feed one more datapoint -- copies and original must agree
+			let day = 86_400u64;
+			let t1 = Duration::from_secs(2_000 + 15 * day);
+			scorer.time_passed(t1); s2.time_passed(t1);
+			if !same(&scorer, &s2) { answers_equal = false; }
+			let b3 = scorer.encode();
+			let mut r3 = &b3[..];
+			if let Ok(mut s3) = <ProbabilisticScorer<_, _> as ReadableArgs<_>>::read(&mut r3, (ProbabilisticScoringDecayParameters::default(), graph, logger)) {
+				if !same(&scorer, &s3) { answers_equal = false; }
+				for step in 1..=3u64 {
+					let t = Duration::from_secs(2_000 + (15 + 16 * step) * day);
+					scorer.time_passed(t); s2.time_passed(t); s3.time_passed(t);
+					if !same(&scorer, &s2) || !same(&scorer, &s3) { answers_equal = false; }
+					if let Some(p) = self.pays.get(step as usize % self.pays.len().max(1)) {
+						let tt = t + Duration::from_secs(5);
+						scorer.payment_path_successful(&p.path, tt); s2.payment_path_successful(&p.path, tt); s3.payment_path_successful(&p.path, tt);
+						if !same(&scorer, &s2) || !same(&scorer, &s3) { answers_equal = false; }
+					}
+				}
+			} else { read_ok = false; }
 		}
 		let mut trunc_ok = true;
 		if bytes.len() > 4 { let mut r = &bytes[..bytes.len() - 3]; if <ProbabilisticScorer<_, _> as ReadableArgs<_>>::read(&mut r, (ProbabilisticScoringDecayParameters::default(), graph, logger)).is_ok() { trunc_ok = false; } }
@@ -1188,7 +1358,7 @@ fn build_net(run: u64, cfg: &Value, log: &Log) -> Net {
 	let txids = Arc::new(Mutex::new(HashMap::new()));
 	let persisters: &'static Vec<RecPersister> = leak((0..n).map(|i| RecPersister {
 		node: i, log: log.clone(), in_progress: Mutex::new(false), chans: chans.clone(), hashes: hashes.clone(),
-		snapshots: Mutex::new(Vec::new()), nwrites: Mutex::new(0), last_cp: Mutex::new(HashMap::new()), pending: Mutex::new(Vec::new()),
+		snapshots: Mutex::new(Vec::new()), nwrites: Mutex::new(0), quiet: Mutex::new(false), last_cp: Mutex::new(HashMap::new()), pending: Mutex::new(Vec::new()),
 		keys: &cfgs[i].keys_manager, fee_est: &cfgs[i].fee_estimator, logger: &cfgs[i].logger, txids: txids.clone(),
 	}).collect());
 	let mut node_cfgs_v = create_node_cfgs_with_persisters(n, cfgs, persisters.iter().collect());
@@ -1231,6 +1401,9 @@ fn build_net(run: u64, cfg: &Value, log: &Log) -> Net {
 		chan_ids.insert((i, j), cid);
 		connected.insert((i, j), true);
 	}
+	// one chain for everybody: opening a channel only gave its blocks to the two nodes involved
+	let top = (0..n).map(|i| nodes[i].best_block_info().1).max().unwrap();
+	for i in 0..n { let h = nodes[i].best_block_info().1; if h < top { connect_blocks(&nodes[i], top - h); } }
 	for c in cfgs.iter().skip(1) {
 		*c.fee_estimator.sat_per_kw.lock().unwrap() = 253;
 	}
@@ -1244,7 +1417,7 @@ fn build_net(run: u64, cfg: &Value, log: &Log) -> Net {
 	let mut net = Net {
 		nodes, cfgs, persisters, queues: HashMap::new(), connected, log: log.clone(), chans, hashes, points: Vec::new(),
 		pays: Vec::new(), scids, chan_ids, run, feerate: vec![feerate0; n], executed: 0, skipped: 0,
-		funding_txids: Vec::new(), extra_funding: Vec::new(), extra_broadcast: Vec::new(), mgr_snaps: vec![Vec::new(); n], mgr_clean: vec![Vec::new(); n], mgr_msgs: vec![Vec::new(); n], msgs_emitted: vec![0; n], mgr_evheld: vec![Vec::new(); n], mgr_writes: vec![Vec::new(); n], dirty: vec![HashSet::new(); n], mgr_held: vec![Vec::new(); n], reest_seen: HashSet::new(), hold_events: vec![false; n], refused_logged: HashSet::new(), saved_idx: vec![None; n], node_cfgs, txids, edges: edges.clone(),
+		funding_txids: Vec::new(), extra_funding: Vec::new(), extra_broadcast: Vec::new(), mgr_snaps: vec![Vec::new(); n], mgr_clean: vec![Vec::new(); n], mgr_msgs: vec![Vec::new(); n], msgs_emitted: vec![0; n], mgr_evheld: vec![Vec::new(); n], mgr_writes: vec![Vec::new(); n], dirty: vec![HashSet::new(); n], mgr_held: vec![Vec::new(); n], reest_seen: HashSet::new(), hold_events: vec![false; n], refused_logged: HashSet::new(), settling: false, mempool: Vec::new(), spent: HashSet::new(), confirmed: HashSet::new(), saved_idx: vec![None; n], node_cfgs, txids, edges: edges.clone(),
 	};
 	for i in 0..n {
 		let _ = net.nodes[i].node.get_and_clear_needs_persistence();
@@ -1494,6 +1667,7 @@ fn main() {
 	std::panic::set_hook(Box::new(move |info| {
 		let msg = format!("{}", info);
 		*LAST_PANIC.lock().unwrap() = msg.chars().take(300).collect();
+		if std::env::var("VERIF_DBG").is_ok() { let bt = format!("{}", std::backtrace::Backtrace::force_capture()); let keep: Vec<&str> = bt.lines().filter(|l| l.contains("lightning::") || l.contains("channet")).collect(); *LAST_PANIC.lock().unwrap() = format!("{} BT: {}", msg, keep.join(" | ")).chars().take(6000).collect(); }
 		if !quiet { eprintln!("PANIC {}", msg); }
 	}));
 	let mut scripts: Vec<Value> = Vec::new();
